@@ -13,10 +13,11 @@ from sim.disk import SimDisk
 from .c02 import after_list_removal  # noqa: F401
 
 ID = "C04"
+VARY_WRITE_CAP = True  # W4: partial raw data writes (sim.disk)
 VARY_KNOBS = True  # module-level tuning constants of the library are lowered in some runs (sim.core.lower_tuning_constants)
 SHRINK_LISTS = ("ops", "faults")
 SHRINK_MIN = {"nchans": 1, "nbits": 1, "n": 1}
-SHRINK_SIMPLE = {"knobs": None, "stale": 0}
+SHRINK_SIMPLE = {"write_cap": None, "knobs": None, "stale": 0}
 KINDS = ["fil", "fil", "fil", "block", "tim", "dat", "spec", "fft"]
 DT = ["uint8", "uint16", "int64", "float32", "float64"]
 # further in-memory types a caller holds (astropy hands out big-endian arrays; integer arithmetic gives int32/int16):
